@@ -22,7 +22,7 @@ PROPS = {
         "bounded_checks": [
             {"name": "survivors", "searcher": "state_tree",
              "clause": "completeness sentence of C08 (every surviving subtree is carried over, up to exchange among identically shaped siblings) on three unambiguous families + executable well-formedness copy",
-             "bound": "all layout pairs up to 4 nodes for the well-formedness copy (147 456 pairs); survivors: child lists up to length 4 over (a) 6 pairwise distinct leaves, common ones in the same order (126 259 pairs), (b) 4 leaf shapes with repetition, children only removed or only added (8 680 pairs), (c) 6 similar function-call siblings, a prefix removed and 1-2 fresh leaves appended (3 732 pairs); thorough tier: 5 nodes / length 5 (10 227 204, 306 259, 72 168 and 10 932 pairs)"},
+             "bound": "all layout pairs up to 4 nodes for the well-formedness copy (147 456 pairs); survivors: child lists up to length 4 over (a) 7 pairwise distinct children incl. the zero-sized Mem0 and the empty call, common ones in the same order (663 328 pairs), (b) 4 leaf shapes with repetition, children only removed or only added (8 680 pairs), (c) 6 similar function-call siblings, a prefix removed and 1-2 fresh leaves appended (3 732 pairs); thorough tier: 5 nodes / length 5 (10 227 204, 306 259, 72 168 and 10 932 pairs)"},
         ],
         "verus_units": ["state_tree"],
         "replay": "state_tree",
